@@ -866,10 +866,13 @@ MERGE_MINMAX = [True]      # False: max/min fork on the comparison instead of bu
 
 
 def sym_max(*args, **kw):
+    orig = args
     if len(args) == 1:
         args = tuple(args[0])
-    if kw or not any(is_sym(a) for a in args):
-        return max(*args, **kw)
+        if not args and "default" in kw:
+            return kw["default"]
+    if "key" in kw or not any(is_sym(a) for a in args):
+        return max(*orig, **kw) if len(orig) != 1 else max(list(args), **kw)
     r = args[0]
     for a in args[1:]:
         c = (a > r)
@@ -885,10 +888,13 @@ def sym_max(*args, **kw):
 
 
 def sym_min(*args, **kw):
+    orig = args
     if len(args) == 1:
         args = tuple(args[0])
-    if kw or not any(is_sym(a) for a in args):
-        return min(*args, **kw)
+        if not args and "default" in kw:
+            return kw["default"]
+    if "key" in kw or not any(is_sym(a) for a in args):
+        return min(*orig, **kw) if len(orig) != 1 else min(list(args), **kw)
     r = args[0]
     for a in args[1:]:
         c = (a < r)
